@@ -101,3 +101,29 @@ Example groups_of_a_container :
   op_groups (fun _ => fail EOther) [VStr "_valid"; VStr "_ready"] g_state = Ok (PL [VStr "top.a"; VStr "top.ab"]) g_state.
 Proof. exact groups_demo. Qed.
 Print Assumptions groups_of_a_container.
+
+(** inside (in-group g body) the captured scope is the part of g up to its last dot; a group name without a dot keeps
+    the scope captured before *)
+From WalModel.proofs Require GroupScope.
+Theorem in_group_body : forall ev g b body st v st1 name,
+  ev g st = Ok v st1 -> name_of v = Some name ->
+  op_in_group ev (g :: b :: body) st =
+  (modify (fun s => upd_group s name) ;;;
+   write_global "CG" (VStr name) ;;;
+   set_scope_cs (GroupScope.group_scope name (st_scope st)) ;;;
+   vs <- eval_args ev (b :: body) ;;
+   modify (fun s => upd_group (upd_scope s (st_scope st)) (st_group st)) ;;;
+   write_global "CG" (VStr (st_group st)) ;;;
+   write_global "CS" (VStr (st_scope st)) ;;;
+   last_or_index_error vs) st1.
+Proof. exact GroupScope.in_group_body_runs_with. Qed.
+Print Assumptions in_group_body.
+Theorem a_group_name_without_a_dot_keeps_the_captured_scope : forall name prev,
+  srfind "."%char name = -1 -> GroupScope.group_scope name prev = prev.
+Proof. exact GroupScope.group_without_a_dot_keeps_the_scope. Qed.
+Print Assumptions a_group_name_without_a_dot_keeps_the_captured_scope.
+Theorem group_scope_is : forall name prev,
+  GroupScope.group_scope name prev =
+  let i := srfind "."%char name in if i =? -1 then prev else stake (Z.to_nat (i + 1)) name.
+Proof. reflexivity. Qed.
+Print Assumptions group_scope_is.
